@@ -46,7 +46,7 @@ of the node's own addresses, and every `hm.Relays` entry is owned by a live host
 theorem reachable_invariants (my : List Addr) (am : Bool) (c : Nat) (ops : List Op) :
     noSelfRecords (run (init my am, c) ops).1 = true ∧ relaysOwned (run (init my am, c) ops).1 = true := by
   have h := inv_run ops (init my am, c) (inv_init my am)
-  exact ⟨(ns_iff _).mpr h.1, (ro_iff _).mpr h.2⟩
+  exact ⟨(ns_iff _).mpr h.1, (ro_iff _).mpr h.2.1⟩
 
 /-- **never to itself / never to a third peer**, after every history: the specification predicate
 `okForward` (Spec/Relay.lean) holds for every forwarding decision of a reachable node. -/
@@ -98,13 +98,71 @@ theorem relay_indexes_die_with_owner (my : List Addr) (am : Bool) (c : Nat) (ops
   | none => rw [hf] at live; exact Bool.noConfusion live
   | some hi =>
     rcases deleteHost_live hf with e | e
-    · rw [e] at hp; exact noIndex_unlinked hid hinv.2 p hp
-    · rw [e, disestablish_relays] at hp; exact noIndex_unlinked hid hinv.2 p hp
+    · rw [e] at hp; exact noIndex_unlinked hid hinv.2.1 p hp
+    · rw [e, disestablish_relays] at hp; exact noIndex_unlinked hid hinv.2.1 p hp
+
+
+/-- helper: `newForwardingNeedsAmRelay` from an extension step. -/
+theorem newForwarding_of_ext {n m : Node} (e : Ext n.amRelay n m) : newForwardingNeedsAmRelay n m = true := by
+  unfold newForwardingNeedsAmRelay
+  cases ham : n.amRelay
+  · simp only [Bool.false_or, List.all_eq_true, Bool.or_eq_true, Bool.not_eq_true', List.any_eq_true,
+      Bool.and_eq_true, beq_iff_eq, beq_eq_false_iff_ne, ne_eq]
+    intro h' hh' r' hr'
+    rcases e.back h' hh' r' hr' with ⟨h0, hh0, hid0, r0, hr0, k1, _, k3⟩ | h1 | h1
+    · by_cases c : r'.type = nebula_ForwardingType
+      · exact Or.inr ⟨h0, hh0, hid0, r0, hr0, k3, by rw [k1]; exact c⟩
+      · exact Or.inl c
+    · exact Or.inl h1
+    · rw [ham] at h1; exact Bool.noConfusion h1.1
+  · rfl
+
+/-- the initiator side (`StartRelays`) and relay migration (`migrateRelayUsed`, as fixed — finding F22)
+create Forwarding records only while the node is configured as a relay. -/
+theorem start_and_migrate_need_amRelay (my : List Addr) (am : Bool) (c0 : Nat) (ops : List Op)
+    (vpnIp : Addr) (v1 : Bool) (relays : List Addr) (o nw : Nat) :
+    newForwardingNeedsAmRelay (run (init my am, c0) ops).1
+        (startRelays (run (init my am, c0) ops).1 (run (init my am, c0) ops).2 vpnIp v1 relays).1 = true ∧
+    newForwardingNeedsAmRelay (run (init my am, c0) ops).1
+        (migrateRelayUsed (run (init my am, c0) ops).1 (run (init my am, c0) ops).2 o nw v1).1 = true := by
+  have hinv := inv_run ops (init my am, c0) (inv_init my am)
+  exact ⟨newForwarding_of_ext (ext_startRelays _ _ _ _ _), newForwarding_of_ext (ext_migrate _ _ _ _ _ hinv.1)⟩
+
+/-- **per-node index uniqueness**, after every history: a relay local index names one record of one
+hostinfo, hostinfo ids are unique, every record's index is in `hm.Relays`, and every state is one of the
+four defined ones. -/
+theorem reachable_index_unique (my : List Addr) (am : Bool) (c : Nat) (ops : List Op) :
+    let n := (run (init my am, c) ops).1
+    (∀ h1 ∈ n.hosts, ∀ h2 ∈ n.hosts, ∀ r1 ∈ h1.recs, ∀ r2 ∈ h2.recs,
+        r1.localIndex = r2.localIndex → h1.id = h2.id ∧ r1 = r2) ∧
+    (∀ h1 ∈ n.hosts, ∀ h2 ∈ n.hosts, h1.id = h2.id → h1 = h2) ∧
+    (∀ h ∈ n.hosts, ∀ r ∈ h.recs, ∃ p ∈ n.relays, p.1 = r.localIndex) ∧
+    (∀ h ∈ n.hosts, ∀ r ∈ h.recs, validState r.state = true) := by
+  have hinv := inv_run ops (init my am, c) (inv_init my am)
+  exact ⟨hinv.2.2.2.1, hinv.2.2.1, hinv.2.2.2.2.1, hinv.2.2.2.2.2⟩
+
+/-- **record_identity_stable**: after every history, NO operation (tunnel up incl. the per-address
+eviction, tunnel close, control message, StartRelays, relay migration, handshake seen on a relay,
+reloads) changes the type or peer address of a record that keeps its hostinfo and local index. -/
+theorem record_identity_stable (my : List Addr) (am : Bool) (c : Nat) (ops : List Op) (op : Op) :
+    identityStable (run (init my am, c) ops).1 (step (run (init my am, c) ops) op).1 = true := by
+  have hinv := inv_run ops (init my am, c) (inv_init my am)
+  exact identityStable_of_orig hinv.2.2 (step_orig_inv op hinv).1
+
+/-- **state_transitions_valid**: after every history, every operation leaves every record in one of the four
+defined states, and no existing record (re-)enters `PeerRequested` — the only state changes are
+→Established (response / request from the record's own peer, handshake seen on the relay),
+→Requested (re-request, StartRelays on a Disestablished record) and →Disestablished (tunnel deletion). -/
+theorem state_transitions_valid (my : List Addr) (am : Bool) (c : Nat) (ops : List Op) (op : Op) :
+    statesValid (run (init my am, c) ops).1 (step (run (init my am, c) ops) op).1 = true := by
+  have hinv := inv_run ops (init my am, c) (inv_init my am)
+  have h := step_orig_inv op hinv
+  exact statesValid_of_orig hinv.2.2 h.2.2.2.2.2.2 h.1
 
 -- non-vacuity: a concrete history on a relay node (addresses 1 = S, 2 = me, 3 = T) after which a
 -- relay packet IS forwarded, and is no longer forwarded once `am_relay` is reloaded to false.
 example :
-    let ops : List Op := [.up 10 11 [1], .up 20 21 [3],
+    let ops : List Op := [.up 10 11 [1] none, .up 20 21 [3] none,
       .ctl 10 { type := 1, initIdx := 500, frm := some 1, to := some 3 },
       .ctl 20 { type := 2, initIdx := 101, respIdx := 700, frm := some 1, to := some 3 }]
     relayPacket (run (init [2] true, 100) ops).1 102 = .forward 20 700 ∧
